@@ -11,10 +11,12 @@ go build -o .build/bin/rewrite-$TAG ./tools/rewrite || exit 2
 cannot() { echo "$1" >&2; if go build -o /dev/null github.com/flowmatters/openwater-core/cmd/ow-sim 2>/dev/null; then exit 3; fi; exit 2; }
 rm -rf .build/rw/owsim-$TAG && mkdir -p .build/rw/owsim-$TAG
 cp overlay/owsim_verif_main.go.txt .build/rw/owsim-$TAG/owsim_zz_verif_main.go
-FILES="/repo/cmd/ow-sim/main.go /repo/cmd/ow-sim/running.go /repo/cmd/ow-sim/simulation_model_reference.go /repo/io/hdf5_util.go $(ls /repo/models/*/generated_*.go)"
-.build/bin/rewrite-$TAG -out .build/rw/owsim-$TAG -rename-main owsimOriginalMain \
+# every non-test Go file of the packages that may start goroutines or take locks; files in which nothing is rewritten stay as they are
+FILES="$(find /repo/cmd/ow-sim /repo/io /repo/sim /repo/models -name '*.go' ! -name '*_test.go' | sort)"
+.build/bin/rewrite-$TAG -skip-unchanged -out .build/rw/owsim-$TAG -rename-main owsimOriginalMain \
   -probe runGeneration:0 -probe writeGeneration:0 -probe PurgeGeneration:0 -probe GetGeneration:0 \
   -add /repo/cmd/ow-sim=/verif/.build/rw/owsim-$TAG/owsim_zz_verif_main.go $FILES || cannot "the rewriter cannot model this tree"
+PROBES=$(python3 -c "import json;print(json.load(open('.build/rw/owsim-$TAG/summary.json')).get('probe',0))" 2>/dev/null || echo 0)
 RACE="-race"
 [ "$OWSIM_NORACE" = 1 ] && RACE=""
-go build -ldflags '-X owverif.local/verif/vrt.Instrumented=yes' $RACE -overlay .build/rw/owsim-$TAG/overlay.json -o .build/owsim-check-$TAG github.com/flowmatters/openwater-core/cmd/ow-sim || cannot "instrumented ow-sim build failed"
+go build -ldflags "-X owverif.local/verif/vrt.Instrumented=yes -X owverif.local/verif/vrt.ProbeCount=$PROBES" $RACE -overlay .build/rw/owsim-$TAG/overlay.json -o .build/owsim-check-$TAG github.com/flowmatters/openwater-core/cmd/ow-sim || cannot "instrumented ow-sim build failed"
